@@ -259,6 +259,13 @@ def _table_case(case, rng):
         # product operands may write the same row with its keys in any order; mixture operands may not (mix()
         # asserts one key order per table: its own stated precondition)
         rows = [nest(r, rng if (mode != "same" and rng.random() < 0.5) else None) for r in rows_flat]
+        if rng.random() < 0.3:
+            # values written as floats / bools where the other table may say int: 1 == 1.0 == True is ONE assignment
+            def retype(d_):
+                return {k_: (retype(v_) if isinstance(v_, dict) else (float(v_) if rng.random() < 0.6 else (bool(v_) if v_ in (0, 1) else v_)))
+                        for k_, v_ in d_.items()}
+            rows = [retype(r_) for r_ in rows]
+            case.count("tables_with_retyped_values")
         how = rng.choice(["probs", "logits"])
         if how == "probs":
             if rng.random() < 0.4:
